@@ -2,6 +2,7 @@ package rules
 
 import (
 	"fmt"
+	"go/constant"
 	"go/token"
 	"go/types"
 	"strings"
@@ -21,7 +22,20 @@ func parseCallbacks(p *core.Program) []*ssa.Function {
 	seen := map[*ssa.Function]bool{}
 	var out []*ssa.Function
 	add := func(v ssa.Value) {
-		if f := funcOfValue(v); f != nil && p.InScope(f) && !seen[f] {
+		f := funcOfValue(v)
+		if f == nil || seen[f] {
+			return
+		}
+		// a method value (st.visit) is a synthetic wrapper around a method of the tree: the wrapper is the callback
+		inScope := p.InScope(f)
+		if !inScope && strings.HasSuffix(f.Name(), "$bound") && len(f.Blocks) > 0 {
+			if m, ok := f.Object().(*types.Func); ok {
+				if target := p.SSA.FuncValue(m); target != nil && p.InScope(target) {
+					inScope = true
+				}
+			}
+		}
+		if inScope {
 			seen[f] = true
 			out = append(out, f)
 		}
@@ -329,7 +343,155 @@ func ruleLineCounter(c *core.Ctx, rule string) {
 		}
 	}
 	if n == 0 {
-		c.Undecide(rule, fname, "universe", c.P.Pos(psc.Pos()), "no positioned error constructor (a parser function returning a struct with LineNumber and Line) is called by the scan loop", nil)
+		ruleLineCounterCell(c, rule, psc)
+	}
+}
+
+// ruleLineCounterCell is the second form of C09-R1: the line counter is not a
+// loop-carried value of ParseStreamCallback itself but a cell (a field of the
+// loop's state object) that methods update. The loop is explored with the
+// methods inlined: in every iteration of the Scan loop the cell is incremented
+// by one exactly once, before any positioned error is built from it, it starts
+// at 0, and nothing else is stored into it.
+func ruleLineCounterCell(c *core.Ctx, rule string, psc *ssa.Function) {
+	fname := core.FuncName(psc)
+	var loopHead *ssa.BasicBlock
+	for _, b := range psc.Blocks {
+		for _, in := range b.Instrs {
+			if call, ok := in.(*ssa.Call); ok && isMethod(call.Call.StaticCallee(), "bufio", "Scanner", "Scan") && isLoopHead(b) {
+				loopHead = b
+			}
+		}
+	}
+	if loopHead == nil {
+		c.Undecide(rule, fname, "universe", c.P.Pos(psc.Pos()), "no loop headed by Scanner.Scan() in ParseStreamCallback: the line counter cannot be located", nil)
+		return
+	}
+	lineArg := func(callee *ssa.Function, args []absint.Value) (absint.Value, bool) {
+		if !isErrCtor(callee) {
+			return nil, false
+		}
+		for i, p := range callee.Params {
+			if fld, ok := fieldSetFromParam(callee, p); ok && fld == "LineNumber" && i < len(args) {
+				return args[i], true
+			}
+		}
+		return nil, false
+	}
+	// pass 1: which cell holds the number handed to the error constructors
+	cells := map[string]bool{}
+	ctors := 0
+	x1 := newExec(c)
+	x1.Hooks.Call = func(x *absint.Exec, s *absint.State, site ssa.CallInstruction, callee *ssa.Function, fnv absint.Value, args []absint.Value) (absint.Value, bool) {
+		if v, ok := lineArg(callee, args); ok {
+			ctors++
+			found := false
+			if l := locOf(x, v); strings.HasPrefix(l, "A:r/") {
+				cells[l], found = true, true
+			}
+			for k, hv := range s.Heap {
+				if strings.HasPrefix(k, "A:r/") && hv.Key() == v.Key() {
+					cells[k], found = true, true
+				}
+			}
+			if !found {
+				cells["?"+v.Key()] = true
+			}
+		}
+		return nil, false
+	}
+	x1.Run(x1.NewState(psc, nil, nil))
+	if !account(c, x1, rule, psc) {
+		return
+	}
+	if ctors == 0 || len(cells) != 1 {
+		var ks []string
+		for k := range cells {
+			ks = append(ks, k)
+		}
+		c.Undecide(rule, fname, "universe", c.P.Pos(psc.Pos()), fmt.Sprintf("the line number handed to the positioned errors is not one loop-carried value or one cell of the loop's state (%d constructor calls, candidates %v)", ctors, sortedStrings(ks)), nil)
+		return
+	}
+	cell := ""
+	for k := range cells {
+		cell = k
+	}
+	if strings.HasPrefix(cell, "?") {
+		c.Violate(rule, fname, "counter", c.P.Pos(psc.Pos()), "the line number handed to the positioned errors is "+cell[1:]+", not a counter kept by the scan loop", nil)
+		return
+	}
+	// pass 2: the cell is a once-per-iteration counter
+	x := newExec(c)
+	var bad []string
+	x.Hooks.Store = func(x *absint.Exec, s *absint.State, in *ssa.Store, addr, val absint.Value) {
+		p, ok := addr.(absint.Ptr)
+		if !ok || p.Loc != cell {
+			return
+		}
+		var old absint.Value = absint.Const{V: constant.MakeInt64(0)}
+		if hv, ok := s.Heap[cell]; ok {
+			old = hv
+		}
+		isInc := false
+		switch t := val.(type) {
+		case absint.Const:
+			if t.Key() == "c:0" || t.Key() == "zero" {
+				if old.Key() != "c:0" && old.Key() != "zero" {
+					bad = append(bad, fmt.Sprintf("%s: the line counter is reset to 0", c.P.Pos(in.Pos())))
+				}
+				return // explicit initialisation
+			}
+			// k+1 folded while the first lines are followed exactly
+			if oc, ok := old.(absint.Const); ok && oc.V != nil && t.V != nil && oc.V.Kind() == constant.Int && t.V.Kind() == constant.Int {
+				a, _ := constant.Int64Val(oc.V)
+				b, _ := constant.Int64Val(t.V)
+				isInc = b == a+1
+			}
+		case *absint.Term:
+			if t.Op == "+" && len(t.Args) == 2 {
+				for i := 0; i < 2; i++ {
+					if t.Args[i].Key() == "c:1" && t.Args[1-i].Key() == old.Key() {
+						isInc = true
+					}
+				}
+			}
+		}
+		if !isInc {
+			bad = append(bad, fmt.Sprintf("%s: the line counter becomes %s, not its old value plus one", c.P.Pos(in.Pos()), val.Key()))
+			return
+		}
+		switch s.Data["inc"] {
+		case "":
+			s.SetData("inc", "1")
+		default:
+			s.SetData("inc", "many")
+		}
+	}
+	x.Hooks.Call = func(x *absint.Exec, s *absint.State, site ssa.CallInstruction, callee *ssa.Function, fnv absint.Value, args []absint.Value) (absint.Value, bool) {
+		if _, ok := lineArg(callee, args); ok && s.Data["inc"] != "1" {
+			bad = append(bad, fmt.Sprintf("%s: a positioned error is built when the counter was incremented %q times for the current line", c.P.Pos(site.Pos()), s.Data["inc"]))
+		}
+		return nil, false
+	}
+	x.Hooks.BackEdge = func(x *absint.Exec, s *absint.State, f *absint.Frame, h *ssa.BasicBlock) {
+		if f.Fn != psc || h != loopHead {
+			return
+		}
+		if s.Data["inc"] != "1" {
+			bad = append(bad, fmt.Sprintf("a scanned line ends with the counter incremented %q times (%s): lines that take this path are not counted, so later errors name the wrong line", s.Data["inc"], x.Valuation(s)))
+		}
+		s.SetData("inc", "")
+	}
+	x.Run(x.NewState(psc, nil, nil))
+	if !account(c, x, rule, psc) {
+		return
+	}
+	bad = uniq(bad)
+	if len(bad) == 0 {
+		c.Discharge(rule, fname, "counter-cell", c.P.Pos(psc.Pos()), "the line number is the cell "+cell+": 0 on entry, +1 exactly once for every scanned line before any positioned error is built")
+	}
+	for _, m := range bad {
+		c.Violate(rule, fname, "counter-cell", c.P.Pos(psc.Pos()), m, nil)
 	}
 }
 
